@@ -318,6 +318,13 @@ class System:
                                       observed=[_f(pf), _f(pa)],
                                       explanation="diffuse-field mean_curve_peak(range) differs from "
                                                   "the peak after update_peaks_bounded(range)")
+                # the range argument omitted = the documented default (None, None), whatever range the object
+                # was last updated with
+                try:
+                    pf, pa = o.mean_curve_peak()
+                except ValueError:
+                    pf, pa = float("nan"), float("nan")
+                self._judge(ctx, root, hist, "diffuse:mean_curve_peak:range-omitted", y, (None, None), pf, pa)
             return
         trads = [o] if self.kind == "trad" else list(o.hvsrs)
         csets = [self.curves] if self.kind == "trad" else self.curves_by_az
